@@ -22,9 +22,12 @@ TextPool == << <<102,111,111,32,98,97,114,40,98,97,122,41,32,113>>, <<97,46,98,4
                <<119,111,114,100,32,119,111,114,100,46,119,111,114,100>>, <<97,97,97,32,98,98,98,32,32>>, <<48,95,49,32,97,45,98>>,
                <<>>, <<102,111,111,98,97,114,32,98,97,114>>, <<65,98,32,97,66,32,97,98>>, <<105,102,32,40,120,41,32,123>>, <<125>>,
                (* brackets whose partner is on another, shorter or longer, line *)
-               <<102,40,97,44,10,32,32,32,32,32,32,98,41,32,120>>, <<123,10,9,9,120,32,125,32,121>>, <<91,10,10,32,32,32,32,93>> >>
+               <<102,40,97,44,10,32,32,32,32,32,32,98,41,32,120>>, <<123,10,9,9,120,32,125,32,121>>, <<91,10,10,32,32,32,32,93>>,
+               (* a backslash and a slash after the same letter *)
+               <<97,47,98,32,97,92,98>> >>
 PatPool == << <<98,97,114>>, <<97>>, <<94,97>>, <<97,36>>, <<92,60,98,97,114>>, <<98,92,62>>, <<97,42>>, <<120,42>>, <<46>>,
-              <<40,97,124,98,41,43>>, <<91,94,97,93>>, <<119,111,114,100>>, <<>>, <<233>>, <<32,32>>, <<111,111>> >>
+              <<40,97,124,98,41,43>>, <<91,94,97,93>>, <<119,111,114,100>>, <<>>, <<233>>, <<32,32>>, <<111,111>>,
+              <<97,92,92>>, <<97,47>> >>          \* a pattern ending in an escaped backslash; one holding the delimiter of /
 CharPool == <<97, 98, 32, 40, 41, 46, 120, 233, 111, 119, 123, 125, 9>>
 KeyPool == << <<120>>, <<233,32,97>>, <<97,98,8,99>>, <<97,32,98,98,23,99>>, <<120,121,21,122>>, <<97,10,98>>, <<10>>, <<>>,
               <<20,120>>, <<97,10,4,98>>, <<22,9,120>>, <<97,22,0,98>>, <<119,49,32,119,50>>, <<32,32,97,10,98,10,99>>, <<28450>>, <<40,41>>, <<97,10,32,98,10,99>> >>
@@ -161,7 +164,11 @@ RScript(vs, sd, t, n, pending, last, macro, atseen) ==
            ELSE <<[keys |-> IF p.typed THEN p.tkeys ELSE <<>>, xkeys |-> IF p.typed THEN p.tkeys ELSE Keys(c), kind |-> c.k, sub |-> SubOf(c),
                    queued |-> IF p.typed THEN 0 ELSE 1, exp |-> Proj(v1), thm |-> IF Thm(vs, c, v1) THEN 1 ELSE 0]>>
                 \o RScript(v1, sd, t, n, Tail(pending), IF Repeatable(c) THEN c ELSE last, macro, atseen)
-    ELSE LET g == IF t = 1 THEN [k |-> "ins", ik |-> "i", keys |-> FirstKeys(sd), reg |-> 0, c1 |-> 0] ELSE GenRepeat(vs, sd, t, last, macro # <<>>) IN
+    ELSE LET g == IF t = 1 THEN [k |-> "ins", ik |-> "i", keys |-> FirstKeys(sd), reg |-> 0, c1 |-> 0]
+                  (* profile rcorpus: one fixed script - a short insert repeated 104 times (5 bytes each): more than 512 bytes in the queue *)
+                  ELSE IF Profile = "rcorpus" THEN (IF t = 2 THEN [k |-> "ins", ik |-> "A", keys |-> <<120, 233>>, reg |-> 0, c1 |-> 0]
+                                                    ELSE IF t = 3 THEN [k |-> "dot", c1 |-> 104] ELSE MotC("0", 0))
+                  ELSE GenRepeat(vs, sd, t, last, macro # <<>>) IN
          IF g.k = "dot" THEN
             <<[keys |-> CntKeys(g.c1) \o <<46>>, xkeys |-> <<>>, kind |-> "dot", sub |-> "dot", queued |-> 0, exp |-> Proj(vs), thm |-> 1,
                push |-> KeysOfAll(Copies(<<last>>, Max2(1, g.c1)))]>>
@@ -274,7 +281,7 @@ Start == Start0
 Table == IF Profile = "corpus"
          THEN [k \in 1..Len(Corpus) |-> [seed |-> -k, profile |-> "corpus", ai |-> 1, steps |-> Fixed(Start, Corpus[k], 1)]]
          ELSE IF Profile = "exh" THEN <<ExhScript>>
-         ELSE IF Profile = "repeat"
+         ELSE IF Profile \in {"repeat", "rcorpus"}
          THEN [k \in 1..NScripts |-> [seed |-> Seed0 + k - 1, profile |-> Profile, ai |-> EnvN("AI", 1),
                                        steps |-> RScript(Start, Seed0 + k - 1, 1, NSteps, <<>>, [k |-> "none"], <<>>, FALSE)]]
          ELSE [k \in 1..NScripts |-> [seed |-> Seed0 + k - 1, profile |-> Profile, ai |-> EnvN("AI", 1),
